@@ -202,7 +202,7 @@ MUTANTS = [
      [("src/yaml/encoding.rs", "reader.by_ref().take(Encoding::DETECT_LEN as u64)", "reader.by_ref().take(2)")]),
     ("r36-helper-captures-de", "violations", "R36", "C11", "R11.2", "shared helper records the deserializer as the failing side",
      [("src/transcode/stream.rs", "\t\tself.0.capture_error(ErrorSource::Ser, ser_err);\n\t\tde::Error::custom(TRANSLATION_FAILED)", "\t\tself.0.capture_error(ErrorSource::De, ser_err);\n\t\tde::Error::custom(TRANSLATION_FAILED)")]),
-    ("r36-arms-swapped", "violations", "R36", "C11", "R11.3", "map_err closure builds the two-sided error on the deserializer arm",
+    ("r36-arms-swapped", "violations", "R36", "C11", "R11.1|R11.2|R11.3", "map_err closure builds the two-sided error on the deserializer arm",
      [("src/transcode/stream.rs", "\t\t\tErrorSource::Ser => Error::Ser(visitor.0.into_error().unwrap(), de_err),\n\t\t\tErrorSource::De => Error::De(de_err),", "\t\t\tErrorSource::De => Error::Ser(visitor.0.into_error().unwrap(), de_err),\n\t\t\tErrorSource::Ser => Error::De(de_err),")]),
     ("r37-replace-false", "violations", "R37", "C14", "R14.3", "stdin flag re-armed by the short-circuit guard",
      [("src/main.rs", "mem::replace(&mut stdin_used, true)", "mem::replace(&mut stdin_used, false)")]),
